@@ -27,6 +27,15 @@ Theorem md_sections : forall n,
 Proof. exact md_sections_lemma. Qed.
 Print Assumptions md_sections.
 
+(* Read as CommonMark the document has no other headings: no paragraph line is directly followed
+   by a line of dashes (every paragraph ends with the library's blank LF line before a rule), so no
+   setext heading arises and the CommonMark headings are the ATX headings of md_sections.
+   Descriptions are written with [esc_par]: a line that starts like a block is escaped. *)
+Theorem md_sections_commonmark : forall n k,
+  setext_free (blocks n) = true /\ cm_headings k (blocks n) = headings k (blocks n).
+Proof. exact md_sections_commonmark_lemma. Qed.
+Print Assumptions md_sections_commonmark.
+
 (* Every row of every table is as wide as the table's header. *)
 Theorem md_rows_width : forall n bs h rows,
   md n = Ok bs -> In (Table h rows) bs ->
